@@ -5,6 +5,7 @@
 -/
 import Rivia.Lemmas.RefineB.Chown
 import Rivia.Lemmas.RefineB.Paths
+import Rivia.Lemmas.MovedEntry
 namespace Rivia.Lemmas.RefineB
 open Rivia Rivia.Memfs Rivia.Spec Rivia.Spec.TreeFs M
 
@@ -15,13 +16,13 @@ def lk (σ : State) (k : FsPath) : Option Entry × Option File.Bytes := (alLooku
 
 /-- what arrives at the image key `k'` when the source held `src` and the image held `old` -/
 def mvImg (src old : Option Entry × Option File.Bytes) (k' : FsPath) : Option Entry × Option File.Bytes :=
-  (match src.1 with | some e => some { e with path := k' } | none => old.1,
+  (match src.1 with | some e => some { e with path := k', rel := movedRel e k' } | none => old.1,
    match src.2 with | some b => some b | none => old.2)
 
 /-- re-key one entry (and its data) from `w` to `k'` -/
 def mvOne (σ : State) (w k' : FsPath) (e : Entry) : State :=
   { σ with
-    entries := alInsert k' { e with path := k' } (alErase w σ.entries),
+    entries := alInsert k' { e with path := k', rel := movedRel e k' } (alErase w σ.entries),
     files := match alLookup w σ.files with
       | some b => alInsert k' b (alErase w σ.files)
       | none => alErase w σ.files }
@@ -70,15 +71,17 @@ def mvPre (sr : FsPath) (ci : Bool) : FsPath := if ci then sr.dropLast else sr
 
 theorem loop_move_desc {sr d : FsPath} {ci : Bool} (hsr : sr ≠ []) {σ : State} {w : FsPath} {e : Entry}
     (f : Nat) (W : List FsPath) (hw : w ≠ []) (he : alLookup w σ.entries = some e)
+    (hdne : dstOf d w (mvPre sr ci) ≠ [])
     (hpar : alLookup w.dropLast (mvOne σ w (dstOf d w (mvPre sr ci)) e).entries = none) :
     moveLoop sr d ci (f + 1) (w :: W) σ =
       moveLoop sr d ci f ((cloneKids e.path e).reverse ++ W) (mvOne σ w (dstOf d w (mvPre sr ci)) e) := by
   have hpar' : alLookup w.dropLast (alInsert (dstOf d w (mvPre sr ci))
-      { e with path := dstOf d w (mvPre sr ci) } (alErase w σ.entries)) = none := hpar
-  rw [moveLoop]
+      { e with path := dstOf d w (mvPre sr ci), rel := movedRel e (dstOf d w (mvPre sr ci)) } (alErase w σ.entries)) = none := hpar
+  rw [moveLoop_succ_cons]
   cases ci <;>
-  · simp only [mvPre, Bool.false_eq_true, if_true, if_false, dirOf_ne hsr, mpure_bind, removeEntry_bind, he,
-      setEntry_bind, removeFile_bind] at hpar' ⊢
+  · simp only [mvPre, Bool.false_eq_true, if_true, if_false] at hdne
+    simp only [mvPre, Bool.false_eq_true, if_true, if_false, dirOf_ne hsr, mpure_bind, removeEntry_bind, he,
+      movedRelM_eq_pure (movedOk_of_ne hdne), setEntry_bind, removeFile_bind] at hpar' ⊢
     cases hb : alLookup w σ.files with
     | none =>
       simp only [mpure_bind, dirOf_ne hw, getEntry_bind, hpar']
@@ -173,7 +176,14 @@ theorem mv_step (hC : MvCtx s0 sr d dst ci) {σ : State} {w k' : FsPath} {e : En
       obtain ⟨r, rfl, rfl⟩ := hpair
       exact hC.img r (by rw [he0]; rfl)
     have hpath : e.path = w := hC.inv.pathField w e he0
-    have := loop_move_desc (d := d) (ci := ci) hC.srne f W hw heσ (by
+    have hk'ne : k' ≠ [] := by
+      obtain ⟨r, _, rfl⟩ := hpair
+      intro h0
+      have hd0 : dst = [] := (List.append_eq_nil_iff.1 h0).1
+      have := hC.disj sr []
+      rw [hd0] at this
+      simp at this
+    have := loop_move_desc (d := d) (ci := ci) hC.srne f W hw heσ (by rw [himg]; exact hk'ne) (by
       rw [himg]
       have h3 := hL w.dropLast
       obtain ⟨r0, hr0⟩ := hdl
